@@ -28,6 +28,9 @@ func NewTypeMap(f *TermFactory) *TypeMap {
 		"cosmossdk.io/math.LegacyDec": SInt, // value scaled by 10^18
 		"time.Time":                   SInt, // nanoseconds since the Unix epoch (UTC)
 		"math/big.Int":                SInt,
+		// coin sets: amount per denomination (absent = 0); DecCoins amounts are scaled by 10^18
+		"github.com/cosmos/cosmos-sdk/types.Coins":    ArraySort(SStr, SInt),
+		"github.com/cosmos/cosmos-sdk/types.DecCoins": ArraySort(SStr, SInt),
 		// typed atomics: the cell holds the value; every method is one atomic step on it (lib.go)
 		"sync/atomic.Bool":   SBool,
 		"sync/atomic.Int64":  SInt,
@@ -76,9 +79,9 @@ func (tm *TypeMap) dtName(t types.Type) string {
 			name += "_" + strings.Join(parts, "_")
 		}
 		if o.Pkg() == nil {
-			return name
+			return sanitize(name)
 		}
-		return shortPkg(o.Pkg().Path()) + "." + name
+		return sanitize(shortPkg(o.Pkg().Path()) + "." + name)
 	}
 	key := t.String()
 	if n, ok := tm.anon[key]; ok {
@@ -312,6 +315,9 @@ func (tm *TypeMap) Zero(t types.Type) *Term {
 		// zero math.Int is a nil big.Int (methods panic); modelled as 0
 		if s == SBool {
 			return f.False()
+		}
+		if s.IsArray() {
+			return f.ConstArray(s, f.Int(0))
 		}
 		return f.Int(0)
 	}
